@@ -104,7 +104,7 @@ def gate_lib(gd, be='np'):
     cm = Bk.mods()['c']
     kind = gd['kind']
     q = list(gd['qubits'])
-    if gd.get('labels') and be == 'np':
+    if gd.get('labels') and (be == 'np' or gd.get('labels_torch')):
         q = [getattr(np, gd['labels'])(x) for x in q]
     if kind == 'rot':
         gl, gk = ref.parse(gd['gen'])
